@@ -533,6 +533,109 @@ pub fn oracle_c(n: usize, run: &MpcRun, spec_json: &Value) -> (Vec<Violation>, B
             ));
         }
     }
+    // ---- second form of the predictor: the derivation with a toss mixed in (a fresh coin toss per check).
+    // A toss whose openings were all on the wire before the data under check lets an outsider compute
+    // the challenge just the same; alarm on exact match only.
+    // (a) KOS, n = 2: session k mixes 32 bytes of the pairwise stream with the k-th 'KOS_OT_toss_open' pair
+    if n == 2 {
+        if let (Some(x), Some(y)) = (kth(0, 1, "RNG ver", 0).and_then(payload32), kth(1, 0, "RNG ver", 0).and_then(payload32)) {
+            let seed0: [u8; 32] = std::array::from_fn(|i| x[i] ^ y[i]);
+            let mut stream = ChaCha20Rng::from_seed(seed0);
+            let mut setups: Vec<u64> = tr.iter().filter(|m| m.phase == "ALSZ_OT_setup").map(|m| m.ord).collect();
+            setups.sort();
+            for (k, setup_ord) in setups.iter().enumerate() {
+                let mut draw = [0u8; 32];
+                stream.fill_bytes(&mut draw);
+                let (Some(oa), Some(ob)) = (kth(0, 1, "KOS_OT_toss_open", k), kth(1, 0, "KOS_OT_toss_open", k)) else { continue };
+                *stats.entry("kos_tosses_seen".into()).or_insert(0) += 1;
+                if oa.ord > *setup_ord || ob.ord > *setup_ord {
+                    continue;
+                }
+                let (Some(a), Some(b)) = (payload32(oa), payload32(ob)) else { continue };
+                let seed: [u8; 32] = std::array::from_fn(|i| draw[i] ^ a[i] ^ b[i]);
+                let mut first = [0u8; 16];
+                ChaCha20Rng::from_seed(seed).fill_bytes(&mut first);
+                for p in 0..2 {
+                    let chis: Vec<&Vec<u8>> = run.res.probes[p].iter().filter(|pr| pr.site.starts_with("kos_chi0")).map(|pr| &pr.data).collect();
+                    if chis.get(k).is_some_and(|c| c.as_slice() == first) {
+                        v.push(mk(
+                            "kos-coefficients-predicted-from-toss-before-data",
+                            format!("OT session {k}: the coin toss for the KOS coefficients was opened (operations {} / {}) before the 'ALSZ_OT_setup' matrix was sent (operation {setup_ord}); the first coefficient used at party {p} equals the outsider's prediction", oa.ord, ob.ord),
+                        ));
+                    }
+                }
+            }
+        }
+    }
+    // (b) aBit test strings and bucket permutation: t-th fresh multi-party toss (round t + 2 of 'RNG ver')
+    if have {
+        let fab: Vec<&Vec<u8>> = run.res.probes[0].iter().filter(|p| p.site == "fabitn_r0").map(|p| &p.data).collect();
+        let perms: Vec<&Vec<u8>> = run.res.probes[0].iter().filter(|p| p.site == "bucket_perm").map(|p| &p.data).collect();
+        let fab_msgs: Vec<u64> = tr.iter().filter(|m| m.from == 0 && m.to == 1 && m.phase == "fabitn").map(|m| m.ord).collect();
+        let dval_msgs: Vec<u64> = tr.iter().filter(|m| m.from == 0 && m.to == 1 && m.phase == "dvalue").map(|m| m.ord).collect();
+        let mut stream = ChaCha20Rng::from_seed(seed);
+        let total = fab.len() + perms.len();
+        let (mut fi, mut pi) = (0usize, 0usize);
+        for t in 0..total {
+            let is_perm = t >= 1 && (t - 1) % 2 == 1;
+            // the fresh toss of this check, if the tree makes one
+            let mut fresh_seed = [0u8; 32];
+            let mut last = 0u64;
+            let mut ok = true;
+            for a in 0..n {
+                match kth(a, (a + 1) % n, "RNG ver", t + 2).and_then(|m| payload32(m).map(|x| (x, m.ord))) {
+                    Some((x, o)) => {
+                        for i in 0..32 {
+                            fresh_seed[i] ^= x[i];
+                        }
+                        last = last.max(o);
+                    }
+                    None => ok = false,
+                }
+            }
+            if !ok {
+                break;
+            }
+            *stats.entry("fresh_multi_party_tosses_seen".into()).or_insert(0) += 1;
+            let mut fresh = ChaCha20Rng::from_seed(fresh_seed);
+            if !is_perm {
+                let mut old16 = [0u8; 16];
+                stream.fill_bytes(&mut old16);
+                let mut f16 = [0u8; 16];
+                fresh.fill_bytes(&mut f16);
+                let data_ord = fab_msgs.get(fi).map(|fo| tr.iter().filter(|m| m.phase == "KOS_OT_corr" && m.ord < *fo).map(|m| m.ord).max().unwrap_or(0)).unwrap_or(0);
+                let s16: [u8; 16] = std::array::from_fn(|i| old16[i] ^ f16[i]);
+                if last < data_ord && fi < fab.len() && fab[fi].as_slice() == polytune::verif::aes_rng_first_block(s16) {
+                    v.push(mk(
+                        "abit-test-combinations-predicted-from-toss-before-data",
+                        format!("aBit check {fi}: the coin toss mixed into the test strings was opened at operation {last}, before the last OT output (operation {data_ord}); the outsider's prediction matches"),
+                    ));
+                }
+                fi += 1;
+            } else {
+                let mut old32 = [0u8; 32];
+                stream.fill_bytes(&mut old32);
+                let mut f32_ = [0u8; 32];
+                fresh.fill_bytes(&mut f32_);
+                let data_ord = dval_msgs.get(pi).map(|d| tr.iter().filter(|m| m.phase == "flaand hash" && m.ord < *d).map(|m| m.ord).max().unwrap_or(0)).unwrap_or(0);
+                if last < data_ord && pi < perms.len() {
+                    let sd: [u8; 32] = std::array::from_fn(|i| old32[i] ^ f32_[i]);
+                    let mut r = ChaCha20Rng::from_seed(sd);
+                    let lprime = perms[pi].len() / 4;
+                    let mut idx: Vec<usize> = (0..lprime).collect();
+                    idx.shuffle(&mut r);
+                    let bytes: Vec<u8> = idx.iter().flat_map(|x| (*x as u32).to_le_bytes()).collect();
+                    if bytes == *perms[pi] {
+                        v.push(mk(
+                            "bucket-assignment-predicted-from-toss-before-data",
+                            format!("bucket permutation {pi}: the coin toss mixed into it was opened at operation {last}, before the leaky triples were checked (operation {data_ord}); the outsider's prediction matches"),
+                        ));
+                    }
+                }
+                pi += 1;
+            }
+        }
+    }
     (v, stats)
 }
 
